@@ -200,10 +200,9 @@ func c17Exec(ctx *vk.Ctx, c c17Case) error {
 			if got != cur {
 				return fmt.Errorf("%s: UpdateGasPrice panicked (%v) and left price %+v behind", where, pv, got)
 			}
-			switch {
-			case v.kind == "zero-target" && !v.overflow && ctx.Known("zero-target-division"):
-				continue
-			case v.overflow && ctx.Known("increase-overflow-panic"):
+			// known finding (deliberate, asserted by the repo's own unit test): explicit panic when the raised
+			// price does not fit int64. Nothing else is excused; the store is unchanged, so the model resumes.
+			if v.overflow && ctx.Known("increase-overflow-panic") {
 				continue
 			}
 			return fmt.Errorf("%s: UpdateGasPrice panicked: %v (model: %s)", where, pv, v.kind)
